@@ -592,7 +592,18 @@ func caseSexp(mode string, sc Script, res Result) sexp.Node {
 	}
 	return sexp.T("case", sexp.T("proto", sexp.Sym(proto)), sexp.T("mode", sexp.Sym(mode)),
 		sexp.T("labels", sexp.L(labels...)), sexp.T("obs", sexp.L(res.Obs...)), sexp.T("log", sexp.L(res.Log...)),
-		res.Final, sexp.T("stall", sexp.L(stall...)), sexp.T("lenient", sexp.Int(lenient)))
+		res.Final, sexp.T("stall", sexp.L(stall...)), sexp.T("lenient", sexp.Int(lenient)), sexp.T("attempts", sexp.Int(res.Attempts)))
+}
+
+// inconclusive: the conversation did not run as scripted for reasons of timing
+func inconclusive(sc Script, res Result) bool {
+	if len(res.Stall) > 0 {
+		return true
+	}
+	if n := len(res.Labels); n > 0 && res.Labels[n-1].Kind == lEnd && res.Labels[n-1].End == "peer" && sc.Flood == 0 {
+		return true // the server ended a connection the script meant to end itself (its write deadline passed)
+	}
+	return false
 }
 
 type outcome struct {
@@ -672,6 +683,16 @@ func main() {
 				o.first = root.Fork(uint64(i)).Uint64()
 				sc := plans[i].make(r)
 				res := runConversation(fmt.Sprint(i), sc)
+				attempts := 1
+				// Cases that depend on real time (a client that pauses reading against the server's 5 s write
+				// deadline) are inconclusive when the machine is so loaded that the connection ended in a way the
+				// script did not intend (the server closed it, or a wait of the harness ran out): such an attempt is
+				// repeated from scratch, up to 3 more times; a defect shows on every attempt, load does not.
+				for plans[i].slow && (plans[i].mode == "slow" || plans[i].mode == "flood") && attempts < 4 && inconclusive(sc, res) {
+					attempts++
+					res = runConversation(fmt.Sprintf("%d.%d", i, attempts), sc)
+				}
+				res.Attempts = attempts
 				o.line = caseSexp(plans[i].mode, sc, res).String()
 			}()
 			mu.Lock()
